@@ -97,6 +97,7 @@ class Gen:
         self.anys = [r_param(p + 1) for p in range(self.nparams)]
         self.sites, self.subs = [], []
         self.flagged = False
+        self.flagpool = []      # elements of earlier results that are flag-like: several calls gated by parts of one result
         for _ in range(self.nsites):
             self.add_site()
         ret = self.gen_ret()
@@ -127,8 +128,10 @@ class Gen:
             return r_none()
         self.flagged = True
         c = rng.random()
-        if c < 0.25:
+        if c < 0.2:
             return r_const(rng.choice(FLAG_VALUES))
+        if self.flagpool and c < 0.65:
+            return rng.choice(self.flagpool)
         return self.any_ref()
 
     def add_site(self):
@@ -142,7 +145,19 @@ class Gen:
             self.add_sub_site(site, j)
             return
         c = rng.random()
-        if c < 0.3:
+        if c < 0.08 and self.allow_flags:
+            # a result whose parts have different truthiness, used as activation flags further down
+            site["fn"] = "mix"
+            site["args"] = [self.unique_const()] + [r_const(rng.choice(FLAG_VALUES)) if rng.random() < 0.6 else self.any_ref()
+                                                    for _ in range(rng.randint(2, 3))]
+            if rng.random() < 0.4:
+                site["unpack"] = len(site["args"])
+            else:
+                self.anys.append(r_site(j))
+            for x in range(len(site["args"])):
+                self.flagpool.append(r_site(j, [key_i(x)]))
+                self.anys.append(r_site(j, [key_i(x)]))
+        elif c < 0.3:
             site["fn"] = "mix"
             site["args"] = [self.unique_const()] + [self.any_ref() for _ in range(rng.randint(0, 2))]
             if rng.random() < 0.3:
